@@ -112,7 +112,29 @@ def prop_C03(run):
                       "ERR2-top output stored only behind a stop_at_errors barrier, nothing fails after", "ERR4 driver writes only behind the output test; exit status follows the verdict", "ERR5 no Result<_,()> dropped", "PAIR push_parent/pop_parent balance"]
 
 
+def prop_C02(run):
+    import rules_fix, rules_err
+    rules_fix.fix1(run)
+    rules_fix.fix2(run)
+    rules_fix.fix3(run)
+    rules_err.err3(run)
+    run.rules_run += ["FIX1 confirming no-guess pass dominates every delivered result", "FIX2 each stateful resolver compares with the previous pass and returns Unresolved on change",
+                      "FIX3 resolved=true only under the static-known conjunction", "ERR3 unstable value in a last pass is an error"]
+
+
+def prop_C09(run):
+    import rules_fix, rules_tab
+    rules_fix.fix1(run)
+    rules_fix.fix4(run)
+    pc = run.anchor("FIX4", "driver::parse_command")
+    if pc:
+        rules_tab.tab_cli_iters(run, pc, rules_tab.parse_usage(run.repo))
+    run.rules_run += ["FIX1", "FIX4 counter bounded by the budget, flags derived from the counter, max_iterations read nowhere else, asserts only in a last pass, --iters 0 rejected"]
+
+
 PROPS = {
+    "C02": prop_C02,
+    "C09": prop_C09,
     "C03": prop_C03,
     "C11": prop_C11,
     "C18": prop_C18,
